@@ -186,7 +186,7 @@ func (i UInt) ExponentiateUInt(other UInt) UInt {
 	}
 	result := i
 	var j UInt
-	for j = 2; j <= other; j++ {
+	for j = other; j > 1; j-- {
 		result *= i
 	}
 	return result
